@@ -45,7 +45,8 @@ def trace_for(tid, n_e, n_p, n_c, prog, kind):
     from graphiq.circuit.circuit_dag import CircuitDAG
     circuit = cz.build_circuit(n_e, n_p, n_c, prog)
     src = rec_of(circuit)
-    t = {"tid": tid, "meta": {"n_e": n_e, "n_p": n_p, "n_c": n_c, "program": prog, "kind": kind}, "src": src}
+    t = {"tid": tid, "meta": {"n_e": n_e, "n_p": n_p, "n_c": n_c, "program": prog, "kind": kind}, "src": src,
+         "wide": n_e + n_p > 5}
     with warnings.catch_warnings():
         warnings.simplefilter("ignore")
         try:
@@ -92,5 +93,29 @@ def run(ctx):
         prog = cz.random_program(rng, n_e, n_p, n_c, rng.randint(1, 9), wrappers=wr, p_measure=0.3)
         tid += 1
         traces.append(trace_for(tid, n_e, n_p, n_c, prog, "random"))
+    # wide circuits: 10+ registers of one type (multi-digit register names), operations biased to the high indices
+    for _ in range(30 if ctx.quick else 400):
+        n_e, n_p = rng.choice([(1, 13), (12, 2), (2, 11), (11, 11)])
+        n_c = rng.choice([1, 12])
+        regs = [["e", i] for i in range(n_e)] + [["p", i] for i in range(n_p)]
+        hi = [r for r in regs if r[1] >= 9] or regs
+        prog = []
+        for _k in range(rng.randint(3, 10)):
+            r = rng.random()
+            a = rng.choice(hi) if rng.random() < 0.7 else rng.choice(regs)
+            b = rng.choice([x for x in (hi if rng.random() < 0.6 else regs) if x != a] or [x for x in regs if x != a])
+            c = rng.randrange(n_c) if rng.random() < 0.4 else n_c - 1
+            if r < 0.3:
+                prog.append({"k": rng.choice(cz.ONEQ), "r": [a], "c": None})
+            elif r < 0.4:
+                prog.append({"k": "OneQubitGateWrapper", "r": [a], "c": None, "w": rng.choice(wr)})
+            elif r < 0.6:
+                prog.append({"k": rng.choice(cz.TWOQ), "r": [a, b], "c": None})
+            elif r < 0.75:
+                prog.append({"k": "MeasurementZ", "r": [a], "c": c})
+            else:
+                prog.append({"k": rng.choice(cz.CCTRL), "r": [a, b], "c": c})
+        tid += 1
+        traces.append(trace_for(tid, n_e, n_p, n_c, prog, "wide"))
     ctx.judge("Trace_Qasm", traces, label="J: openQASM / JSON export, independent parse, re-import", xmx="4g")
     ctx.assumptions.append("the openQASM tokenizer (engine/qasm.py) is trusted; text fidelity beyond statement structure is not a spec matter")
